@@ -71,6 +71,17 @@ fn main() {
                 std::process::exit(2);
             }
         }
+        "find-shuffles" => {
+            let n: usize = args.get(2).and_then(|s| s.parse().ok()).unwrap_or(10);
+            let b: usize = args.get(3).and_then(|s| s.parse().ok()).unwrap_or(2);
+            let tries: u64 = args.get(4).and_then(|s| s.parse().ok()).unwrap_or(20_000_000);
+            let hs: Vec<_> = (0..16u64).map(|t| std::thread::spawn(move || walleye::endgames::find_shuffles(0x5AFF1E + t, n, tries, b))).collect();
+            for h in hs {
+                for (fen, states, widest) in h.join().unwrap() {
+                    println!("{} | states={} widest={}", fen, states, widest);
+                }
+            }
+        }
         "gen-minimal-mates" => {
             let n: usize = args.get(2).and_then(|s| s.parse().ok()).unwrap_or(8);
             print!("{}", walleye::endgames::generate(n));
@@ -107,7 +118,16 @@ fn main() {
             Ok(n) => {
                 println!("referee ok, {} nodes", n);
                 match walleye::endgames::self_check() {
-                    Ok(k) => println!("minimal-material mate list ok, {} positions", k),
+                    Ok(k) => {
+                        println!("minimal-material mate list ok, {} positions", k);
+                        match walleye::endgames::shuffles_self_check() {
+                            Ok(n) => println!("closed-shuffle list ok, {} positions", n),
+                            Err(e) => {
+                                eprintln!("closed-shuffle list: {}", e);
+                                std::process::exit(2);
+                            }
+                        }
+                    }
                     Err(e) => {
                         eprintln!("minimal-material mate list: {}", e);
                         std::process::exit(2);
